@@ -116,7 +116,8 @@ def ensure_facts(cfg, repo=REPO):
     ok = os.path.join(d, "OK")
     if os.path.exists(ok):
         return d, th, False
-    lock = os.path.join(CACHE, "extract-%s.lock" % cfg)
+    # one extraction per (tree, cfg) at a time; different trees may be extracted concurrently (tools/eval-all-seeds runs several)
+    lock = os.path.join(CACHE, "extract-%s-%s.lock" % (th, cfg))
     with open(lock, "w") as lf:
         fcntl.flock(lf, fcntl.LOCK_EX)
         if os.path.exists(ok):
